@@ -1,16 +1,174 @@
-"""Extensions of the cxx2c subset: lambdas and statement regions as targets,
-linalg:: table.  Kept apart so the core printer stays small."""
+"""Extensions of the cxx2c subset: lambdas and statement regions as targets.
+Kept apart so the core printer stays small."""
 from cxx2c import Fn, Ty, Unsupported, where, mangle, Index
+from astload import InfraError
 
 
 def install(L):
-    L.ext_builtin_call = lambda e, r, obj, args: None
-    L.ext_builtin_method = lambda e, me, base, obj, args: None
+    pass
+
+
+def find_all(n, kind, out):
+    if n.get('kind') == kind:
+        out.append(n)
+    for c in n.get('inner', []):
+        if isinstance(c, dict):
+            find_all(c, kind, out)
 
 
 def request_lambda(L, host, t):
-    raise Unsupported('lambda targets not implemented yet')
+    """target = k-th LambdaExpr (pre-order) inside host.  The closure becomes
+    struct <cname>_closure with one field per capture (by-reference captures
+    and `this` become pointers); operator() becomes <cname>(closure*, params)."""
+    ls = []
+    find_all(host, 'LambdaExpr', ls)
+    # the body is dumped twice (inside operator() and as last child): drop nested duplicates
+    seen, uniq = set(), []
+    for l in ls:
+        key = (l.get('range', {}).get('begin', {}).get('offset'), l.get('range', {}).get('end', {}).get('offset'))
+        if key in seen:
+            continue
+        seen.add(key)
+        uniq.append(l)
+    if t.get('expect_lambdas') is not None and len(uniq) != t['expect_lambdas']:
+        raise InfraError('contract no longer attached: %s contains %d lambdas, spec expects %d' %
+                         (t['lambda_in'], len(uniq), t['expect_lambdas']))
+    k = t['ordinal']
+    if k >= len(uniq):
+        raise InfraError('contract no longer attached: lambda #%d not found in %s (%d lambdas)' % (k, t['lambda_in'], len(uniq)))
+    lam = uniq[k]
+    inner = lam['inner']
+    rec = inner[0]
+    call = [c for c in rec['inner'] if c.get('kind') == 'CXXMethodDecl' and c.get('name') == 'operator()']
+    if not call:
+        raise Unsupported('generic lambda at %s' % where(lam))
+    call = call[0]
+    fields = [c for c in rec['inner'] if c.get('kind') == 'FieldDecl']
+    inits = [c for c in inner[1:] if c.get('kind') != 'CompoundStmt']
+    if len(fields) != len(inits):
+        raise Unsupported('lambda capture list shape at %s' % where(lam))
+    cname = t['cname']
+    f = L.request_fn(call, cname, kind='lambda')
+    f.closure_ty = cname + '_closure'
+    lines = []
+    for fd, ini in zip(fields, inits):
+        ft = L.ty(fd['type'])
+        e = ini
+        while e.get('kind') in ('ImplicitCastExpr', 'CXXConstructExpr', 'MaterializeTemporaryExpr', 'ExprWithCleanups') and e.get('inner'):
+            e = e['inner'][0]
+        if e.get('kind') == 'CXXThisExpr':
+            pt = ft if ft.kind == 'ptr' else Ty('ptr', to=ft)
+            lines.append('  %s;' % L.cdecl(pt, '__this'))
+            f.this_field = 'self->__this'
+            continue
+        if e.get('kind') != 'DeclRefExpr':
+            raise Unsupported('lambda init-capture at %s' % where(lam))
+        vid = e['referencedDecl']['id']
+        vname = e['referencedDecl']['name']
+        if ft.kind == 'ref':
+            vt = L.ty(e['type']).noref()
+            lines.append('  %s;' % L.cdecl(Ty('ptr', to=vt), vname))
+            f.captures[vid] = ('self->' + vname, True)
+        else:
+            lines.append('  %s;' % L.cdecl(ft, vname))
+            f.captures[vid] = ('self->' + vname, False)
+    L.rec_defs[f.closure_ty] = 'struct %s {\n%s\n};' % (f.closure_ty, '\n'.join(lines) or '  char _empty;')
+    L.rec_order.append(f.closure_ty)
+    L.rec_fields[f.closure_ty] = []
+    L.note('lambda at %s lowered to %s(struct %s*, ...)' % (where(lam), cname, f.closure_ty))
+    return f
 
 
 def request_region(L, host, t):
     raise Unsupported('region targets not implemented yet')
+
+
+# ---------------------------------------------------------------- linalg ---
+# Fixed table for the free functions / operators of include/manifold/linalg.h
+# on vec<T,N> (their real bodies are variadic-template `apply`/`fold`
+# machinery outside the subset).  Component-wise C helpers are generated per
+# (function, argument types); semantics copied from linalg.h (min: a<b?a:b,
+# max: a<b?b:a, fold left-to-right).  The replay drivers compare these helpers
+# with the real linalg on random inputs (differential smoke).
+import re as _re
+
+COMP = ['x', 'y', 'z', 'w']
+BIN_OPS = {'operator+': '+', 'operator-': '-', 'operator*': '*', 'operator/': '/', 'cmul': '*'}
+CMP_OPS = {'equal': '==', 'nequal': '!=', 'less': '<', 'greater': '>', 'lequal': '<=', 'gequal': '>='}
+ASSIGN_OPS = {'operator+=': '+', 'operator-=': '-', 'operator*=': '*', 'operator/=': '/'}
+
+
+def vec_info(t):
+    """(scalar ctype, N) for linalg::vec<T,N> record types, else None"""
+    if t.kind != 'rec' or not t.key:
+        return None
+    m = _re.match(r'^linalg::vec<(.*),(\d)>$', t.key)
+    if not m:
+        return None
+    from cxx2c import BUILTIN
+    return BUILTIN.get(m.group(1), m.group(1)), int(m.group(2))
+
+
+def linalg_call(L, e, d, name, args):
+    """returns C text or None when the function is not in the table"""
+    ats = [L.ty(a['type']).noref() for a in args]
+    rt = L.ty(e['type']).noref()
+    vi = [vec_info(t) for t in ats]
+    rvi = vec_info(rt)
+    n = max([v[1] for v in vi if v] or [0])
+    if n == 0:
+        return None
+    for t in ats:
+        if t.kind == 'rec' and not vec_info(t):
+            return None   # matrices, quaternions: not in the table
+    cts = [L.cty(t) for t in ats]
+    rct = L.cty(rt)
+    hname = 'la_%s_%s' % (mangle(name.replace('operator', 'op_').replace('+', 'add').replace('-', 'sub').replace('*', 'mul').replace('/', 'div').replace('=', 'eq')),
+                          '_'.join(mangle(c) for c in cts))
+
+    def comp(i, k):
+        return ('%s.%s' % ('ab'[i] if i < 2 else 'c', COMP[k])) if vi[i] else 'ab'[i]
+    params = ', '.join('%s %s' % (c, 'abc'[i]) for i, c in enumerate(cts))
+    body = None
+    if name in BIN_OPS and len(args) == 2 and rvi:
+        body = 'return (%s){%s};' % (rct, ', '.join('%s %s %s' % (comp(0, k), BIN_OPS[name], comp(1, k)) for k in range(n)))
+    elif name in ('min', 'max') and len(args) == 2 and rvi:
+        f = (lambda x, y: '(%s < %s ? %s : %s)' % (x, y, x, y)) if name == 'min' else (lambda x, y: '(%s < %s ? %s : %s)' % (x, y, y, x))
+        body = 'return (%s){%s};' % (rct, ', '.join(f(comp(0, k), comp(1, k)) for k in range(n)))
+    elif name in CMP_OPS and len(args) == 2 and rvi:
+        body = 'return (%s){%s};' % (rct, ', '.join('%s %s %s' % (comp(0, k), CMP_OPS[name], comp(1, k)) for k in range(n)))
+    elif name == 'operator-' and len(args) == 1 and rvi:
+        body = 'return (%s){%s};' % (rct, ', '.join('-a.%s' % COMP[k] for k in range(n)))
+    elif name == 'abs' and len(args) == 1 and rvi:
+        fn = 'fabs' if rvi[0] in ('double', 'float') else 'abs'
+        body = 'return (%s){%s};' % (rct, ', '.join('%s(a.%s)' % (fn, COMP[k]) for k in range(n)))
+    elif name == 'isfinite' and len(args) == 1 and rvi:
+        body = 'return (%s){%s};' % (rct, ', '.join('(isfinite(a.%s) != 0)' % COMP[k] for k in range(n)))
+    elif name in ('all', 'any') and len(args) == 1:
+        body = 'return %s;' % ((' && ' if name == 'all' else ' || ').join('(a.%s != 0)' % COMP[k] for k in range(n)))
+    elif name == 'sum' and len(args) == 1:
+        body = 'return %s;' % ' + '.join('a.%s' % COMP[k] for k in range(n))
+    elif name in ('minelem', 'maxelem') and len(args) == 1:
+        acc = 'a.x'
+        for k in range(1, n):
+            c = 'a.%s' % COMP[k]
+            acc = '(%s < %s ? %s : %s)' % ((acc, c, acc, c) if name == 'minelem' else (acc, c, c, acc))
+        body = 'return %s;' % acc
+    elif name == 'dot' and len(args) == 2 and vi[0] and vi[1]:
+        body = 'return %s;' % ' + '.join('a.%s * b.%s' % (COMP[k], COMP[k]) for k in range(n))
+    elif name == 'cross' and len(args) == 2 and vi[0] and vi[1] and n == 3:
+        body = 'return (%s){a.y * b.z - a.z * b.y, a.z * b.x - a.x * b.z, a.x * b.y - a.y * b.x};' % rct
+    elif name == 'cross' and len(args) == 2 and vi[0] and vi[1] and n == 2:
+        body = 'return a.x * b.y - a.y * b.x;'
+    elif name == 'length2' and len(args) == 1:
+        body = 'return %s;' % ' + '.join('a.%s * a.%s' % (COMP[k], COMP[k]) for k in range(n))
+    elif name in ASSIGN_OPS and len(args) == 2 and vi[0]:
+        # a op= b, returns reference to a
+        op = ASSIGN_OPS[name]
+        stm = ' '.join('a->%s = a->%s %s %s;' % (COMP[k], COMP[k], op, ('b.%s' % COMP[k]) if vi[1] else 'b') for k in range(n))
+        h = L.helper(hname, 'static inline %s* %s(%s* a, %s b) { %s return a; }' % (cts[0], hname, cts[0], cts[1], stm))
+        return '(*%s(%s, %s))' % (h, L.addr(args[0]), L.expr(args[1]))
+    if body is None:
+        return None
+    h = L.helper(hname, 'static inline %s %s(%s) { %s }' % (rct, hname, params, body))
+    return '%s(%s)' % (h, ', '.join(L.expr(a) for a in args))
